@@ -461,6 +461,11 @@ class Interp(Exec):
                 return isinstance(self.st.env[node.id], (VCont, VStr, VTuple, VInt, VBool))
             return False
         eff = self.effects.of_nodes([s], (fi.module, fi.cls), recv_builtin)
+        # objects created by earlier iterations exist at the loop head: the set of existing objects is some superset of the one before the loop
+        a_pre = self.st.alloc
+        a_head = self.fresh("alloc_head", a_pre.sort())
+        self.add_universal([TObj()], lambda o: z3.Implies(a_pre[o], a_head[o]), "allocation-is-monotonic")
+        self.st.alloc = a_head
         fc = self.frame_contract()
         if fc is not None and fc.labels.get("loop_havoc_heap"):
             # heap attributes written by assumed models (hooks) inside loops: invisible to the syntactic effect analysis, listed by the contract
